@@ -79,6 +79,15 @@ func (a *AggOracle) processLatestGER(ctx context.Context, blockNumToFetch *uint6
 	// Fetch the latest GER
 	blockNum, gerToInject, err := a.getLastFinalizedGER(ctx, *blockNumToFetch)
 	if err != nil {
+		if errors.Is(err, l1infotreesync.ErrBlockNotProcessed) {
+			// the syncer has not reached the sampled block yet: keep it, so that the next iteration
+			// waits for this block instead of chasing a finalized block that keeps moving ahead
+			*blockNumToFetch = blockNum
+		} else {
+			// any other error (e.g. ErrNotFound: no GER at or below the sampled block, which never changes
+			// for a finalized block): sample a new block on the next iteration
+			*blockNumToFetch = 0
+		}
 		return err
 	}
 
